@@ -9,8 +9,10 @@ from .common import Corr, f2hex, hex2f, flist
 
 ID = "C15"
 LEAN_MODULES = ["TempestVerif.Props.C15", "TempestVerif.Props.C15Fit", "TempestVerif.Props.C15Hier",
-                "TempestVerif.Props.C15Replicate", "TempestVerif.Props.C15FitTotal", "TempestVerif.Lemmas.CholList"]
-RULE = ("(i) mstep-T: generated weighted data (d=1..6, n=2d..200; separated / overlapping / rank-deficient / duplicated / far-from-origin point sets, "
+                "TempestVerif.Props.C15Replicate", "TempestVerif.Props.C15FitTotal", "TempestVerif.Lemmas.CholList",
+                "TempestVerif.Props.C15Source"]
+RULE = ("(0) lits-X: the literal parameters of the models (Model.ClusterLits: 1e-10, reg_covar 1e-6, tol 1e-3, max_iter 1000, n_init 1 — tied to the literals of the source by Props/C15Source.lean) as the compiled driver evaluates them at Float = the constants this harness sends = the defaults of a fresh real GaussianMixture, bit for bit (6 cases, all non-trivial). "
+        "(i) mstep-T: generated weighted data (d=1..6, n=2d..200; separated / overlapping / rank-deficient / duplicated / far-from-origin point sets, "
         "15% scaled by 10^U(1,5); sample weights uniform, log-normal skewed (sigma 3), two-point dominated, with exact zeros, small integers; K=1..3 random "
         "non-negative responsibilities incl. one-hot rows and an all-zero column) fed to the real GaussianMixture._m_step ('full' and 'diag') and to the Float "
         "model, compared at 1e-9*(1+scale). gmmeval-T: on the parameters the real M-step returned, the real _e_step / _compute_lower_bound / predict / bic vs "
@@ -37,7 +39,8 @@ RULE = ("(i) mstep-T: generated weighted data (d=1..6, n=2d..200; separated / ov
         "(iii) replicate-T: real fit on (X, integer c) vs fit on np.repeat(X, c) under the same random_state, tolerance 1e-6 relative. "
         "(iv) property-R: the statement's invariants checked directly on every real mixture of gmmfit-T and every real hierarchical model of hfit-T "
         "(no model involved; a fit or predict that raises is a failure).")
-MODELLED = ["scipy.stats.multivariate_normal is represented by the same Gaussian log-density computed through a Cholesky factor (lower triangle read); scipy's "
+MODELLED = ["the numpy idioms of cluster.py are read by translator G18 through the fixed vocabulary Model/NpSrc.lean (column slices, left-to-right sums, entrywise axis-0 reductions and dot products, row-wise axis-1 reductions, x**2 = x*x, C + eye*s as adding s on the diagonal); Props/C15Source.lean proves the models equal to the generated terms",
+            "scipy.stats.multivariate_normal is represented by the same Gaussian log-density computed through a Cholesky factor (lower triangle read); scipy's "
             "eigenvalue test that REFUSES a covariance (LinAlgError/ValueError) is an uninterpreted oracle `sing : matrix -> Bool` — every theorem is for "
             "every oracle; in the one-step suite the oracle is scipy's own answer, in the whole-fit suites it is `never` (runs where scipy did refuse are tagged)",
             "np.random.RandomState.rand is a tape of numbers in [0,1) (the recorded values of the real run; RandomState(42)'s for the hierarchical model)",
@@ -56,6 +59,14 @@ ASSUMPTIONS = ["covariance_type is 'full' or 'diag' ('tied'/'spherical' are outs
 
 TINY = float(np.finfo(float).tiny)
 EPS = 1e-10
+REG = 1e-6          # GaussianMixture's default reg_covar (the inner mixtures of the hierarchical model use the defaults)
+TOL = 1e-3          # … default tol
+GMAXIT = 1000       # … default max_iter
+
+
+def translators():
+    from translate import g18_cluster
+    return [g18_cluster.generate()]
 
 
 # ------------------------------------------------------------------------------------------ generators
@@ -1095,8 +1106,8 @@ def hfit_line(X, w, kw, Q, n_init=1, refused=()):
     ww = np.ones(n) if w is None else np.asarray(w, dtype=float)
     mp = "none" if kw["min_points"] is None else str(kw["min_points"])
     return (f"hgmm.fit.F d={d} diag={1 if kw['covariance_type'] == 'diag' else 0} norm={1 if kw['normalize'] else 0} x={_mat(X)} "
-            f"w={flist(ww, f2hex)} tape={flist(tape42(2 * n_init), f2hex)} tiny={f2hex(TINY)} eps={f2hex(EPS)} reg={f2hex(1e-6)} "
-            f"tol={f2hex(1e-3)} gmaxit=1000 ninit={n_init} maxit={kw['max_iterations']} minpts={mp} mod={f2hex(kw['threshold_modifier'])} "
+            f"w={flist(ww, f2hex)} tape={flist(tape42(2 * n_init), f2hex)} tiny={f2hex(TINY)} eps={f2hex(EPS)} reg={f2hex(REG)} "
+            f"tol={f2hex(TOL)} gmaxit={GMAXIT} ninit={n_init} maxit={kw['max_iterations']} minpts={mp} mod={f2hex(kw['threshold_modifier'])} "
             f"regp={f2hex(1e-6)} epsd={f2hex(1e-8)} q={_mat(Q)} sing={_stack(refused)}")
 
 
@@ -1486,9 +1497,33 @@ def _corr_replicate(tier):
     return [c]
 
 
+def _corr_lits(drv):
+    """lits-X: the literal parameters the models are instantiated with in Props/C15Source.lean (`Model.ClusterLits`, tied to the
+       literals of the source by `rfl`), as the compiled driver evaluates them at Float, against (a) the constants this harness
+       sends to the driver and (b) the defaults of a freshly constructed real GaussianMixture — bit for bit"""
+    from tempest.cluster import GaussianMixture
+    c = Corr("lits-X", "X")
+    ans = drv.batch(["lits.F"])[0].split()
+    gm = GaussianMixture()
+    if len(ans) != 5:
+        c.disagree(input="lits.F", impl="5 fields", model=ans)
+        return c
+    rows = [("eps=1e-10", hex2f(ans[0]), EPS, None), ("reg_covar", hex2f(ans[1]), REG, gm.reg_covar), ("tol", hex2f(ans[2]), TOL, gm.tol),
+            ("max_iter", int(ans[3]), GMAXIT, gm.max_iter), ("n_init", int(ans[4]), 1, gm.n_init)]
+    for name, model, sent, real in rows:
+        c.case((name, repr(model)), True)
+        if f2hex(float(model)) != f2hex(float(sent)) or (real is not None and (type(real) is bool or f2hex(float(real)) != f2hex(float(model)))):
+            c.disagree(input=name, impl={"harness": repr(sent), "real default": repr(real)}, model=repr(model))
+    c.case(("tiny", f2hex(TINY)), True)
+    if TINY != float(np.finfo(float).tiny) or TINY != 2.0 ** -1022:
+        c.disagree(input="np.finfo(float).tiny", impl=repr(float(np.finfo(float).tiny)), model=repr(TINY))
+    c.sample({n: repr(m) for n, m, _, _ in rows})
+    return c
+
+
 def correspond(tier):
     drv = common.Driver()
-    out = []
+    out = [_corr_lits(drv)]
     out += _corr_algebra(tier, drv)
     out += _corr_init(tier, drv)
     fit_suites = _corr_fit(tier, drv)          # [gmmfit-T, property-R]
